@@ -75,10 +75,14 @@ CHECKS['C08'] = dict(
          'Config.process_cmdline). C08_override_sets_exactly_that_path / C08_override_mistyped_path_is_an_error: the loaded override document, merged into ANY plain base '
          'along a path through mappings and list indices, yields the base with exactly that path set (every other entry and the order unchanged) when the path exists, and a MergeError '
          'when a key is missing or an index lies beyond the end (the override document of the model is tied to the parsed document of the real command line on all raw flags). '
-         'Partial: for override documents that are not single chains (several keys, mapping / list values, nested !new) and bases with tags the statement "no path exists afterwards that '
-         'did not exist before" is decided by the correspondence and by the reference oracles (path-existence rule; negative indices), not by a theorem.',
+         'C08_notnew_is_update_without_new_paths: the GLOBAL statement for tag-free content - any number of tag-free mapping documents followed by ANY tag-free mapping document marked '
+         '!notnew at its root (as the loader builds it) flattens to Spec.UpdateNN.upd_nn of the config built so far: the same content when that no-new-path update succeeds, a MergeError '
+         'otherwise; C08_no_new_path: every path of the result is a path of the config built so far; C08_notnew_agrees_with_plain_merge: when it succeeds it is the ordinary update. '
+         'The spec upd_nn is additionally tied directly to Builder.build by correspondence (data or MergeError). '
+         'Partial: for overlays / bases that carry further tags (priorities, !del, nested !new, function nodes, list operators) and for a !notnew stage that is not the last one the '
+         'statement "no path exists afterwards that did not exist before" is decided by the correspondence and by the reference oracles (path-existence rule; negative indices), not by a theorem.',
     design='4 (C08)',
-    technique='Coq lemmas on the creation gate of the merge loop + exhaustive flag correspondence + sampled merge correspondence; path-existence and command-line oracles for replays')
+    technique='Coq refinement proof (merge of a !notnew overlay = no-new-path update, by induction on fuel / documents) + lemmas on the creation gate of the merge loop + exhaustive flag correspondence + sampled merge / spec correspondence; path-existence and command-line oracles for replays')
 
 CHECKS['C16'] = dict(
     text='Machine-checked: C16_append (for every older tree and target path: the operator hands over the very node found at the path with its elements followed by the new ones, '
